@@ -108,7 +108,9 @@ pub fn generate(tier: &str, seed: u64, out: &mut Out) {
         "é 😀",
         " -----END PGP SIGNATURE-----",
     ];
-    let spool = ["", "iQIz", "=olY7", "-----BEGIN PGP SIGNATURE-----"];
+    // signature lines: blank, base64, a marker look-alike, and an old-GnuPG armour header line
+    // ("Key: value") — every one of them is part of the returned signature
+    let spool = ["", "iQIz", "=olY7", "-----BEGIN PGP SIGNATURE-----", "Version: GnuPG v1"];
     let tails = ["", "junk", "-----END PGP SIGNATURE-----"];
     let hss = lists_upto(&hpool, 2);
     let pss = lists_upto(&ppool, if thorough { 3 } else { 2 });
@@ -142,7 +144,7 @@ pub fn generate(tier: &str, seed: u64, out: &mut Out) {
     out.req("pgp.strip", &[es(&inrelease.replace('\n', "\r\n"))]);
     let mut rng = Rng::new(seed);
     let frag = [
-        BEGIN_MSG, BEGIN_SIG, END_SIG, "", "a", "\r", "Hash: x", " ", "-", "é",
+        BEGIN_MSG, BEGIN_SIG, END_SIG, "", "a", "\r", "Hash: x", " ", "-", "é", "Version: GnuPG v1",
     ];
     let n = if thorough { 200_000 } else { 20_000 };
     for _ in 0..n {
